@@ -583,9 +583,13 @@ func (s *Session) hostInfoFromMap(row map[string]interface{}, host *HostInfo) (*
 		// Not sure what the port field will be called until the JIRA issue is complete
 	}
 
-	ip, port := s.cfg.translateAddressPort(host.ConnectAddress(), host.port)
-	host.connectAddress = ip
-	host.port = port
+	if !host.invalidConnectAddr() {
+		// a row without any usable address (null or unparsable address columns) is
+		// left as it is, callers skip it as an invalid peer
+		ip, port := s.cfg.translateAddressPort(host.ConnectAddress(), host.port)
+		host.connectAddress = ip
+		host.port = port
+	}
 
 	return host, nil
 }
